@@ -2,7 +2,7 @@
    nothing else.  Statements only; proofs in Convert/ModelQuantize.v.  All statements are
    for every layer list and every dictionary. *)
 From Coq Require Import String List Bool.
-From QV Require Import Convert.ModelQuantize.
+From QV Require Import Convert.ModelQuantize Convert.Adaptive.
 From QVGen Require Import ConvertGen.
 From QV Require Import Link.ConvertLink.
 Import ListNotations.
@@ -78,3 +78,32 @@ Theorem C12_source_activation_map_is_the_model : forall act bits,
   gen_quantize_activation act bits = quantize_activation act bits.
 Proof. exact link_quantize_activation. Qed.
 Print Assumptions C12_source_activation_map_is_the_model.
+
+(* ---- the Activation branch in full (Convert/Adaptive.v): QActivation and QAdaptiveActivation entries, prefer_qadaptiveactivation ---- *)
+(* a dictionary without a QAdaptiveActivation class entry: the default call is exactly the function of the theorems above *)
+Theorem C12_full_conversion_is_conservative : forall d bits m, assoc "QAdaptiveActivation" d = None ->
+  convert_model_full false d bits m = convert_model d bits m.
+Proof. exact convert_model_full_conservative. Qed.
+Print Assumptions C12_full_conversion_is_conservative.
+Theorem C12_full_topology_preserved : forall prefer d bits m, map l_name (convert_model_full prefer d bits m) = map l_name m.
+Proof. exact topology_preserved_full. Qed.
+Print Assumptions C12_full_topology_preserved.
+(* an Activation layer no entry applies to is left exactly as it was, whatever the preference *)
+Theorem C12_activation_unselected_unchanged : forall prefer d bits l,
+  find_entry d (l_name l) "QActivation" = None -> find_entry d (l_name l) "QAdaptiveActivation" = None ->
+  convert_activation_full prefer d bits l = (l, None).
+Proof. exact full_unselected_unchanged. Qed.
+Print Assumptions C12_activation_unselected_unchanged.
+(* prefer_qadaptiveactivation only matters when both kinds of entry apply to the layer *)
+Theorem C12_preference_irrelevant_without_both : forall d bits l,
+  find_entry d (l_name l) "QActivation" = None \/ find_entry d (l_name l) "QAdaptiveActivation" = None ->
+  convert_activation_full true d bits l = convert_activation_full false d bits l.
+Proof. exact preference_irrelevant_without_both. Qed.
+Print Assumptions C12_preference_irrelevant_without_both.
+(* an adaptive entry is split into the bare quantizer name and its digits (total_bits) *)
+Theorem C12_adaptive_entry_split : forall d bits l s, find_entry d (l_name l) "QActivation" = None ->
+  find_entry d (l_name l) "QAdaptiveActivation" = Some [("", s)] -> s <> "" ->
+  convert_activation_full false d bits l =
+    (L "QAdaptiveActivation" (l_name l) (l_use_bias l) (Some (strip_params s)) None None, Some (digits s)).
+Proof. exact adaptive_entry_split. Qed.
+Print Assumptions C12_adaptive_entry_split.
